@@ -34,20 +34,8 @@ struct Config {
   Config() : bits(16), lim(32767), small(4), mid(40), edge_pct(3), maxdim(3), pip_maxcol(false), scale_pct(100) {}
 };
 inline Config& G() { static Config g; return g; }
-inline long isqrt_l(long v) { long r = 0; while ((r + 1) <= v / (r + 1)) ++r; return r; }
-inline void configure(int bits) {
-  Config& g = G(); g.bits = bits;
-  g.lim = bits == 64 ? 0x7fffffffffffffffL : (1L << (bits - 1)) - 1;
-  switch (bits) {
-  case 8:  g.small = 2;  g.mid = 5;       g.maxdim = 2; break;
-  case 16: g.small = 8;  g.mid = 300;     g.maxdim = 3; break;
-  case 32: g.small = 9;  g.mid = 1500;    g.maxdim = 3; break;
-  default: g.small = 40; g.mid = 3000000; g.maxdim = 3; break;
-  }
-  g.small = hx::opt().geti("small", g.small); g.mid = hx::opt().geti("mid", g.mid);
-  g.edge_pct = (int) hx::opt().geti("edge", g.edge_pct); g.maxdim = (int) hx::opt().geti("maxdim", g.maxdim);
-  g.pip_maxcol = hx::opt().geti("pipmaxcol", 0) != 0;
-}
+inline long isqrt_l(long v) { mpz_class z(v), r; mpz_sqrt(r.get_mpz_t(), z.get_mpz_t()); return r.get_si(); }
+void configure(int bits);   // defined in cfgdiff.cc (per-width magnitudes)
 // ordinary random coefficient: mostly small, sometimes mid, rarely at the type limits
 inline long rl(long lo, long hi) { return lo + (long) (hx::rng()() % (unsigned long) (hi - lo + 1)); }
 inline long rc_edge() {
